@@ -364,6 +364,37 @@ pub fn take_console() -> Vec<u8> {
     })
 }
 
+/// Write the (unminimised) scenario of one run index as a replay file - used when a worker process died and
+/// could not report anything itself.
+fn gen<P: Property>(args: &Args) -> i32 {
+    let tier = match args.opt.get("tier").map(|s| s.as_str()) {
+        Some("thorough") => Tier::Thorough,
+        _ => Tier::Quick,
+    };
+    let seed: u64 = args.opt.get("seed").and_then(|s| s.parse().ok()).unwrap_or(1);
+    let index: u64 = args.opt.get("index").and_then(|s| s.parse().ok()).unwrap_or(0);
+    let out = args.opt.get("out").cloned().unwrap_or_else(|| "gen.json".into());
+    let mut rng = Rng::derive(seed, P::ID, index);
+    let scn = P::generate(&mut rng, tier, index);
+    let rep = Replay {
+        property: P::ID.to_string(),
+        engine: if cfg!(feature = "net") { "net" } else { "des" }.to_string(),
+        profile: profile_name().to_string(),
+        seed,
+        index,
+        oracle: "process-death".to_string(),
+        key: None,
+        detail: "the worker process died while executing this run".to_string(),
+        original_size: P::size(&scn),
+        minimised_size: P::size(&scn),
+        scenario: scn,
+    };
+    match std::fs::write(&out, serde_json::to_string_pretty(&rep).unwrap()) {
+        Ok(_) => 0,
+        Err(_) => 2,
+    }
+}
+
 fn replay<P: Property>(path: &str) -> i32 {
     let txt = match std::fs::read_to_string(path) {
         Ok(t) => t,
@@ -459,6 +490,10 @@ pub fn main() {
                 .and_then(|v| v.get("property").and_then(|p| p.as_str()).map(|s| s.to_string()))
                 .unwrap_or_default();
             dispatch!(id.as_str(), replay, &path)
+        }
+        Some("gen") => {
+            let id = args.pos.get(1).cloned().unwrap_or_default();
+            dispatch!(id.as_str(), gen, &args)
         }
         Some("profile") => {
             eprintln!("{}", profile_name());
